@@ -1,6 +1,9 @@
 package server
 
 import (
+	"errors"
+	"os"
+	"sync"
 	"io"
 	"net"
 	"time"
@@ -32,41 +35,122 @@ func vPrefix4(a, b, c, d byte, bits int) *bgp.IPAddrPrefix {
 	return n
 }
 
-// vConn is the transport of a harness: reads come from a fixed byte string (then io.EOF, or block
-// for ever when blockAtEOF is set), writes are recorded.
+// vConn is the transport of a harness: reads come from a fixed byte string; after it the connection
+// either ends (io.EOF) or stays silent (the read blocks until a read deadline in the past is set or
+// the connection is closed, like a socket). Writes are recorded.
 type vConn struct {
+	mu         sync.Mutex
 	in         []byte
 	pos        int
 	out        []byte
 	closed     bool
 	blockAtEOF bool
-	never      chan struct{}
+	woken      bool
+	wake       chan struct{}
+}
+
+var errVConnClosed = errors.New("use of closed network connection")
+
+func newVConn(in []byte, silentAfter bool) *vConn {
+	return &vConn{in: in, blockAtEOF: silentAfter, wake: make(chan struct{})}
 }
 
 func (c *vConn) Read(b []byte) (int, error) {
-	if c.pos >= len(c.in) {
-		if c.blockAtEOF && !c.closed {
-			<-c.never
-		}
+	c.mu.Lock()
+	if c.closed {
+		c.mu.Unlock()
+		return 0, errVConnClosed
+	}
+	if c.pos < len(c.in) {
+		n := copy(b, c.in[c.pos:])
+		c.pos += n
+		c.mu.Unlock()
+		return n, nil
+	}
+	if !c.blockAtEOF {
+		c.mu.Unlock()
 		return 0, io.EOF
 	}
-	n := copy(b, c.in[c.pos:])
-	c.pos += n
-	return n, nil
-}
-func (c *vConn) Write(b []byte) (int, error) {
+	if c.wake == nil {
+		c.wake = make(chan struct{})
+	}
+	w := c.wake
+	c.mu.Unlock()
+	<-w
+	c.mu.Lock()
+	defer c.mu.Unlock()
 	if c.closed {
-		return 0, io.ErrClosedPipe
+		return 0, errVConnClosed
+	}
+	return 0, os.ErrDeadlineExceeded
+}
+
+func (c *vConn) Write(b []byte) (int, error) {
+	c.mu.Lock()
+	defer c.mu.Unlock()
+	if c.closed {
+		return 0, errVConnClosed
 	}
 	c.out = append(c.out, b...)
 	return len(b), nil
 }
-func (c *vConn) Close() error                     { c.closed = true; return nil }
-func (c *vConn) LocalAddr() net.Addr              { return &net.TCPAddr{IP: net.IPv4(10, 0, 0, 1), Port: 179} }
-func (c *vConn) RemoteAddr() net.Addr             { return &net.TCPAddr{IP: net.IPv4(10, 0, 0, 2), Port: 30000} }
+
+func (c *vConn) wakeLocked() {
+	if c.wake == nil {
+		c.wake = make(chan struct{})
+	}
+	if !c.woken {
+		c.woken = true
+		close(c.wake)
+	}
+}
+
+func (c *vConn) Close() error {
+	c.mu.Lock()
+	defer c.mu.Unlock()
+	c.closed = true
+	c.wakeLocked()
+	return nil
+}
+
+func (c *vConn) SetReadDeadline(t time.Time) error {
+	c.mu.Lock()
+	defer c.mu.Unlock()
+	if !t.IsZero() {
+		c.wakeLocked()
+	} else if c.woken && !c.closed {
+		c.woken, c.wake = false, make(chan struct{})
+	}
+	return nil
+}
+func (c *vConn) LocalAddr() net.Addr              { return &net.TCPAddr{IP: net.IP{10, 0, 0, 1}, Port: 179} }
+func (c *vConn) RemoteAddr() net.Addr             { return &net.TCPAddr{IP: net.IP{10, 0, 0, 2}, Port: 30000} }
 func (c *vConn) SetDeadline(time.Time) error      { return nil }
-func (c *vConn) SetReadDeadline(time.Time) error  { return nil }
 func (c *vConn) SetWriteDeadline(time.Time) error { return nil }
+
+// vNotification returns code and subcode of the first NOTIFICATION among the messages written to
+// the connection (0,0,false if there is none), and whether a KEEPALIVE was written.
+func (c *vConn) written() (code, subcode uint8, notif, keepalive, open bool) {
+	b := c.out
+	for len(b) >= 19 {
+		l := int(b[16])<<8 | int(b[17])
+		if l < 19 || l > len(b) {
+			break
+		}
+		switch b[18] {
+		case bgp.BGP_MSG_NOTIFICATION:
+			if !notif && l >= 21 {
+				code, subcode, notif = b[19], b[20], true
+			}
+		case bgp.BGP_MSG_KEEPALIVE:
+			keepalive = true
+		case bgp.BGP_MSG_OPEN:
+			open = true
+		}
+		b = b[l:]
+	}
+	return
+}
 
 // vServer builds a BgpServer with the real constructor (no gRPC listener, no Serve loop) and gives
 // it the tables StartBgp would create. The management goroutine is not running: harnesses call the
@@ -114,7 +198,13 @@ func vEstablished(s *BgpServer, c *oc.Neighbor, families []bgp.Family) *peer {
 	}
 	p.fsm.familyMap.Store(fm)
 	p.fsm.isEBGP = c.Config.PeerAs != c.Config.LocalAs
-	p.peerInfo.Store(&table.PeerInfo{AS: c.Config.PeerAs, LocalAS: c.Config.LocalAs, ID: vAddr4(2, 2, 2, byte(c.Config.PeerAs)), Address: c.State.NeighborAddress, LocalID: vAddr4(1, 1, 1, 1)})
+	c.State.RemoteRouterId = vAddr4(2, 2, 2, c.State.NeighborAddress.As4()[3])
+	c.Transport.State.RemoteAddress = c.State.NeighborAddress
+	c.Transport.State.LocalAddress = vAddr4(10, 0, 0, 1)
+	p.fsm.pConf.Update(c)
+	// what handleFSMMessage stores on entering Established
+	p.peerInfo.Store(table.NewPeerInfo(p.fsm.gConf, c, c.State.PeerAs, c.Config.LocalAs, c.State.RemoteRouterId,
+		p.fsm.gConf.Config.RouterId, c.Transport.State.RemoteAddress, c.Transport.State.LocalAddress))
 	s.neighborMap[c.State.NeighborAddress] = p
 	return p
 }
@@ -127,4 +217,31 @@ func vUpdate4(prefix *bgp.IPAddrPrefix, withdraw bool, aspath []uint32, nh netip
 	attrs := []bgp.PathAttributeInterface{bgp.NewPathAttributeOrigin(0),
 		bgp.NewPathAttributeAsPath([]bgp.AsPathParamInterface{bgp.NewAs4PathParam(bgp.BGP_ASPATH_ATTR_TYPE_SEQ, aspath)}), n}
 	return bgp.NewBGPUpdateMessage(nil, attrs, []bgp.PathNLRI{{NLRI: prefix}})
+}
+
+func vTimeUnix(sec int64) time.Time { return time.Unix(sec, 0) }
+
+// vTransition mirrors the tail of fsmHandler.loop for one state change: fsm.stateChange, the
+// server callback, then publication of the new state.
+func vTransition(s *BgpServer, p *peer, next bgp.FSMState, reason fsmStateReasonType) {
+	r := newfsmStateReason(reason, nil, nil)
+	p.fsm.stateChange(next, r)
+	s.handleFSMMessage(p, &fsmMsg{MsgType: fsmMsgStateChange, MsgData: next, StateReason: r})
+	p.fsm.state.Store(next)
+}
+
+func vRecv(s *BgpServer, p *peer, m *bgp.BGPMessage, sec int64) {
+	s.handleFSMMessage(p, &fsmMsg{MsgType: fsmMsgBGPMessage, MsgData: m, timestamp: time.Unix(5000000000+sec, 0)}) // later than any instant of the modelled clock
+}
+
+func vUpdate6(prefix *bgp.IPAddrPrefix, withdraw bool, aspath []uint32) *bgp.BGPMessage {
+	if withdraw {
+		a, _ := bgp.NewPathAttributeMpUnreachNLRI(bgp.RF_IPv6_UC, []bgp.PathNLRI{{NLRI: prefix}})
+		return bgp.NewBGPUpdateMessage(nil, []bgp.PathAttributeInterface{a}, nil)
+	}
+	nh := netip.AddrFrom16([16]byte{0x20, 0x01, 0x0d, 0xb8, 15: 2})
+	mp, _ := bgp.NewPathAttributeMpReachNLRI(bgp.RF_IPv6_UC, []bgp.PathNLRI{{NLRI: prefix}}, nh)
+	attrs := []bgp.PathAttributeInterface{bgp.NewPathAttributeOrigin(0),
+		bgp.NewPathAttributeAsPath([]bgp.AsPathParamInterface{bgp.NewAs4PathParam(bgp.BGP_ASPATH_ATTR_TYPE_SEQ, aspath)}), mp}
+	return bgp.NewBGPUpdateMessage(nil, attrs, nil)
 }
